@@ -24,8 +24,9 @@ where
         let mut inner = bcf::Reader::from(inner);
 
         let header = inner.read_header()?;
-        let string_maps = bcf::header::StringMaps::try_from(&header)
-            .map_err(|e| io::Error::new(io::ErrorKind::InvalidData, e))?;
+        // Use the string maps built by the reader from the raw header: the dictionary order is
+        // the order of appearance of the header lines, which is lost in the parsed header
+        let string_maps = inner.string_maps().clone();
 
         let samples = header
             .sample_names()
